@@ -285,11 +285,17 @@ class Type:
 
 
 class Package:
-    __slots__ = ("id", "name", "types", "type_utf8", "key_utf8")
+    """chunk_order: 'grouped' (typeSpec, then its type chunks, type after type: what aapt writes), 'specs-first' (all typeSpec
+    chunks, then all type chunks), 'interleaved' (all typeSpecs, then the type chunks round-robin over the types).  The
+    runtime only needs a typeSpec before the first type chunk of the same id.
+    cfg_order: 'first' (configurations in order of first appearance), 'reversed', 'rotated' -- order of the type chunks of
+    one type."""
+    __slots__ = ("id", "name", "types", "type_utf8", "key_utf8", "chunk_order", "cfg_order")
 
-    def __init__(self, id, name, types, type_utf8=False, key_utf8=True):
+    def __init__(self, id, name, types, type_utf8=False, key_utf8=True, chunk_order="grouped", cfg_order="first"):
         self.id, self.name, self.types = id, name, list(types)
         self.type_utf8, self.key_utf8 = type_utf8, key_utf8
+        self.chunk_order, self.cfg_order = chunk_order, cfg_order
 
 
 class Table:
@@ -439,13 +445,22 @@ def _spec_flags(entry):
 def package_chunk(pkg, pool):
     type_names = [t.name for t in pkg.types]
     keys = _Pool()
-    chunks = []
+    specs, per_type = [], []
     for ti, t in enumerate(pkg.types):
         if not t.entries:
             continue
         type_id = ti + 1
-        chunks.append(type_spec_chunk(type_id, [_spec_flags(e) for e in t.entries]))
-        for cfg in t.configs():
+        specs.append(type_spec_chunk(type_id, [_spec_flags(e) for e in t.entries]))
+        chunks = []
+        per_type.append(chunks)
+        cfgs = t.configs()
+        if isinstance(pkg.cfg_order, (list, tuple)):
+            cfgs = [cfgs[i] for i in pkg.cfg_order if i < len(cfgs)] + cfgs[len(pkg.cfg_order):]
+        elif pkg.cfg_order == "reversed":
+            cfgs = cfgs[::-1]
+        elif pkg.cfg_order == "rotated":
+            cfgs = cfgs[1:] + cfgs[:1]
+        for cfg in cfgs:
             slots = []
             for e in t.entries:
                 if e is None or cfg not in e.values:
@@ -456,6 +471,16 @@ def package_chunk(pkg, pool):
                 while slots and slots[-1] is None:
                     slots.pop()
             chunks.append(type_chunk(type_id, cfg, t.enc_of(cfg), slots, t.layout))
+    if pkg.chunk_order == "grouped":
+        chunks = [c for sp, cs in zip(specs, per_type) for c in [sp] + cs]
+    elif pkg.chunk_order == "specs-first":
+        chunks = specs + [c for cs in per_type for c in cs]
+    elif pkg.chunk_order == "interleaved":
+        chunks = list(specs)
+        for k in range(max([len(cs) for cs in per_type] or [0])):
+            chunks += [cs[k] for cs in per_type if k < len(cs)]
+    else:
+        raise ValueError(pkg.chunk_order)
     tsp = string_pool(type_names, pkg.type_utf8)
     ksp = string_pool(keys.strings, pkg.key_utf8)
     name16 = pkg.name.encode("utf-16-le")
